@@ -945,9 +945,59 @@ def run_mha_case(ctx, cfg, rg, index):
 # ---------------------------------------------------------------------------------------------
 
 
+def run_long_narrow_case(ctx, i, rg):
+  """Long padded sequences whose lengths arrive in a narrow integer dtype (int8 / uint8 / int16, the way data pipelines store
+  them): the dtype of seq_lengths is bookkeeping - outputs and final carry equal those obtained with int32 lengths, in both APIs."""
+  import jax
+  import jax.numpy as jnp
+  import flax.linen as nn
+  from flax import nnx
+  dt, T = [('int8', 70), ('uint8', 130), ('int8', 127), ('int16', 70), ('uint8', 255), ('int8', 100)][i % 6]
+  layer = ['rnn_reverse', 'rnn_reverse_keep_order', 'bidirectional', 'rnn_forward'][(i // 6) % 4]
+  api = ['linen', 'nnx'][(i // 24) % 2] if layer != 'bidirectional' or True else 'linen'
+  desc = dict(lengths_dtype=dt, T=T, layer=layer, api=api)
+  with ctx.case('rnn.long_narrow', i, desc, nontrivial=True):
+    B, F, H = 2, 2, 3
+    x = jnp.asarray(rg.uniform(-1, 1, (B, T, F)).astype(np.float32))
+    lens = np.asarray([T - 3, max(1, T // 2)], np.int64)
+    L32, Ln = jnp.asarray(lens.astype(np.int32)), jnp.asarray(lens.astype(dt))
+    if api == 'linen':
+      if layer == 'bidirectional':
+        mod = nn.Bidirectional(nn.RNN(nn.GRUCell(H)), nn.RNN(nn.GRUCell(H)), return_carry=True)
+      else:
+        mod = nn.RNN(nn.GRUCell(H), reverse=layer != 'rnn_forward', keep_order=layer == 'rnn_reverse_keep_order', return_carry=True)
+      v = mod.init(jax.random.key(i), x, seq_lengths=L32)
+      call = lambda L: mod.apply(v, x, seq_lengths=L)  # noqa: E731
+    else:
+      mk = lambda: nnx.RNN(nnx.GRUCell(F, H, rngs=nnx.Rngs(i)), reverse=layer != 'rnn_forward', keep_order=layer == 'rnn_reverse_keep_order', return_carry=True)  # noqa: E731
+      if layer == 'bidirectional':
+        mod = nnx.Bidirectional(mk_f := nnx.RNN(nnx.GRUCell(F, H, rngs=nnx.Rngs(i)), return_carry=True), nnx.RNN(nnx.GRUCell(F, H, rngs=nnx.Rngs(i + 1)), return_carry=True), return_carry=True)
+      else:
+        mod = mk()
+      call = lambda L: mod(x, seq_lengths=L)  # noqa: E731
+    want = call(L32)
+    got = call(Ln)
+    ctx.op('%s.%s(seq_lengths dtype %s, T=%d)' % (api, layer, dt, T))
+    la, lb = jax.tree_util.tree_leaves(want), jax.tree_util.tree_leaves(got)
+    valid = np.arange(T)[None, :] < lens[:, None]
+    ok = len(la) == len(lb)
+    for a, b in zip(la, lb):
+      a, b = np.asarray(a), np.asarray(b)
+      if a.shape != b.shape:
+        ok = False
+      elif a.ndim == 3 and a.shape[:2] == (B, T):
+        ok = ok and np.allclose(a[valid], b[valid], rtol=1e-5, atol=1e-6)   # padded positions are unspecified
+      else:
+        ok = ok and np.allclose(a, b, rtol=1e-5, atol=1e-6)
+    ctx.check(ok, 'rnn.seq_lengths_dtype_changes_result:%s' % api, lambda: dict(case=desc))
+
+
 def run(ctx):
   import time
   quick = ctx.tier == 'quick'
+  for i in ctx.indices(24 if quick else 48, 'rnn.long_narrow'):
+    with_rg = _np_rng(ctx, 'rnn.long_narrow', i)
+    run_long_narrow_case(ctx, i, with_rg)
   t_last = [time.time()]
 
   def lap(name):
